@@ -182,17 +182,16 @@ structure Flags where
   surnamesRespectVisibility : Bool   -- getSurnames / SurnameInList skip living people unless shown
   placesRespectHide : Bool           -- Publisher.Places skips living people's events in hide mode
   hideLettersFromDead : Bool         -- GetIndexLetters(hide) = letters of the people who are not living
-  keysSkipHidden : Bool              -- page names are assigned to the people that get a page only
 deriving DecidableEq, Repr
 
 def generatedFlags : Flags :=
   ⟨Generated.Living.surnamesRespectVisibility, Generated.Living.placesRespectHide,
-   Generated.Living.hideLettersFromDead, Generated.Living.keysSkipHidden⟩
+   Generated.Living.hideLettersFromDead⟩
 
-def Flags.Safe (fl : Flags) : Prop := fl = ⟨true, true, true, true⟩
+def Flags.Safe (fl : Flags) : Prop := fl = ⟨true, true, true⟩
 instance (fl : Flags) : Decidable fl.Safe := by unfold Flags.Safe; exact inferInstance
 
-def unrepairedFlags : Flags := ⟨false, false, false, false⟩
+def unrepairedFlags : Flags := ⟨false, false, false⟩
 
 /-- `getSurnames`: rows of surnames.html and the Surnames badge of every header -/
 def surnameList (fl : Flags) (ps : List Person) (v : Vis) : List Str :=
